@@ -537,6 +537,12 @@ func (s *session) handleLogon(msg *Message) error {
 		return err
 	}
 
+	// The same goes for the checks that do not depend on sequence numbers (BeginString, CompIDs,
+	// SendingTime): a Logon failing them must not wipe the store on its way to being refused.
+	if err := s.verifySelect(msg, false, false, false); err != nil {
+		return err
+	}
+
 	var resetSeqNumFlag FIXBoolean
 	if err := msg.Body.GetField(tagResetSeqNumFlag, &resetSeqNumFlag); err == nil {
 		if resetSeqNumFlag {
